@@ -101,6 +101,7 @@ type Exec struct {
 	prebound map[ssa.Value]bool
 	loadedFrom map[ssa.Value]*lval // values loaded from a path inside a local cell
 	goalSk []Term
+	dirty  map[string]bool
 }
 
 func (e *Exec) root() *Exec {
@@ -383,12 +384,73 @@ func (e *Exec) writePath(v Term, t types.Type, path []pathElem, nv Term) Term {
 }
 
 func (e *Exec) load(lv *lval) Term {
+	if lv.cell == nil && e.pathDirty(lv) {
+		_, t := e.readPathType(lv.rootT, lv.path)
+		return e.havoc("dirty", e.g.sortOf(t), true)
+	}
 	if lv.cell != nil {
 		t, _ := e.readPath(e.cellGet(lv.cell), lv.cell.typ, lv.path)
 		return t
 	}
 	t, _ := e.readPath(lv.root, lv.rootT, lv.path)
 	return t
+}
+
+// pathDirty: the function writes this field through a non-local address somewhere (flow-insensitive pre-scan).
+func (e *Exec) pathDirty(lv *lval) bool {
+	r := e.root()
+	if r.dirty == nil {
+		r.dirty = map[string]bool{}
+		for _, b := range r.fn.Blocks {
+			for _, in := range b.Instrs {
+				st, ok := in.(*ssa.Store)
+				if !ok || storeRoot(st.Addr) != nil {
+					continue
+				}
+				for a := st.Addr; a != nil; {
+					switch x := a.(type) {
+					case *ssa.FieldAddr:
+						if stt, _ := structOf(x.X.Type()); stt != nil {
+							r.dirty[stt.Field(x.Field).Name()] = true
+						}
+						a = x.X
+					case *ssa.IndexAddr:
+						r.dirty["[]"] = true
+						a = x.X
+					default:
+						a = nil
+					}
+				}
+			}
+		}
+	}
+	if len(r.dirty) == 0 {
+		return false
+	}
+	t := lv.rootT
+	for _, p := range lv.path {
+		if p.field >= 0 {
+			st, _ := structOf(t)
+			if st == nil {
+				return false
+			}
+			if r.dirty[st.Field(p.field).Name()] {
+				return true
+			}
+			t = st.Field(p.field).Type()
+			continue
+		}
+		if r.dirty["[]"] {
+			return true
+		}
+		switch tt := t.Underlying().(type) {
+		case *types.Slice:
+			t = tt.Elem()
+		case *types.Array:
+			t = tt.Elem()
+		}
+	}
+	return false
 }
 
 func (e *Exec) lvType(lv *lval) types.Type {
@@ -422,8 +484,8 @@ func (e *Exec) readPathType(t types.Type, path []pathElem) (bool, types.Type) {
 
 func (e *Exec) store(lv *lval, nv Term, pos token.Pos) {
 	if lv.cell == nil {
-		// write through a non-local address: outside the modelled subset (and a frame violation)
-		e.unsupported(fmt.Sprintf("%s: store through non-local address at %s", e.fn.Name(), e.w.pos(pos)))
+		// write to memory this activation does not own: a C19 frame violation (reported there).  The value
+		// semantics model ignores the write; every later read of an affected field is havocked (see dirty).
 		return
 	}
 	if e.root().escapes[lv.cell] {
@@ -779,15 +841,14 @@ func (e *Exec) instr(b *ssa.BasicBlock, in ssa.Instruction, preds []*ssa.BasicBl
 	case *ssa.Store:
 		addr := e.value(x.Addr)
 		if addr.lv == nil {
-			// store through pointer value
-			e.unsupported(fmt.Sprintf("%s: store through pointer value at %s", e.fn.Name(), e.w.pos(x.Pos())))
+			// store through a pointer value that is not a tracked address: ignored (frame violation, see C19); reads are havocked via dirty
 			return
 		}
 		e.store(addr.lv, e.term(x.Val), x.Pos())
 	case *ssa.MapUpdate:
 		m := e.value(x.Map)
 		if m.cell == nil {
-			e.unsupported(fmt.Sprintf("%s: map update on non-local map at %s", e.fn.Name(), e.w.pos(x.Pos())))
+			// update of a shared map: ignored here (frame violation, see C19); reads of mutable globals are havocked
 			return
 		}
 		s := e.g.sortOf(x.Map.Type())
@@ -880,9 +941,13 @@ func (e *Exec) unop(x *ssa.UnOp) {
 		if a.lv != nil {
 			t := e.load(a.lv)
 			if gl, ok := x.X.(*ssa.Global); ok {
-				// value of a global (immutable after init, C19): keep symbolic identity
+				if e.w.mutableGlobal(gl) {
+					// written outside init: its value at this point is unknown
+					e.setVal(x, val{t: e.havoc("mutglobal", e.g.sortOf(x.Type()), true)})
+					return
+				}
+				// value of a global that is immutable after init (C19): keep symbolic identity
 				e.setVal(x, val{t: t})
-				_ = gl
 				return
 			}
 			e.defVal(x, t)
